@@ -128,6 +128,8 @@ def op_call(kindstyle: str, prov: str, scope: str, *items: str) -> str:
     b = Built()
     params = []  # (name, hint_src, value)
     defaults = []  # (name, python literal source)
+    varargs = None  # (name, extra positional values)
+    varkw = None  # (name, extra keyword arguments)
     ret_src = None
     body_ret = None
     body_raises = False
@@ -136,6 +138,13 @@ def op_call(kindstyle: str, prov: str, scope: str, *items: str) -> str:
             f = it.split("|")
             if f[0] == "P":
                 params.append((f[1], b.hint_src(f[2], f[3], f[4]), parse_value_u(f[4])))
+            elif f[0] == "PD":
+                # a hinted parameter with a default value that the caller omits
+                params.append((f[1], b.hint_src(f[2], f[3], f[4]), parse_value_u(f[4]), "omit"))
+            elif f[0] == "VA":
+                varargs = (f[1], [impl.parse_value(v) for v in impl.split_semi(f[2])])
+            elif f[0] == "VK":
+                varkw = (f[1], {kv.split("=")[0]: int(kv.split("=")[1]) for kv in impl.split_semi(f[2])})
             elif f[0] == "D":
                 defaults.append((f[1], f[2]))
             elif f[0] == "R":
@@ -155,7 +164,7 @@ def op_call(kindstyle: str, prov: str, scope: str, *items: str) -> str:
     ns["RET"] = body_ret
     sc = parse_scope(scope)
     if kind in ("func", "method"):
-        return _call_function(kind, style, prov, sc, params, ret_src, body_raises, ns, defaults)
+        return _call_function(kind, style, prov, sc, params, ret_src, body_raises, ns, defaults, varargs, varkw)
     if kind in ("nt", "dc", "pyd"):
         return _construct(kind, style, params, ns)
     return "bad-op"
@@ -181,10 +190,42 @@ def _provider_src(prov: str, sc: dict, ns: dict) -> str:
     return "PROV"
 
 
-def _call_function(kind, style, prov, sc, params, ret_src, body_raises, ns, defaults=()) -> str:
+def _late_names(src: str) -> str:
+    import re
+
+    return re.sub(r"\bA(\d+)\b", r"LATE_A\1", src)
+
+
+def _call_function(kind, style, prov, sc, params, ret_src, body_raises, ns, defaults=(), varargs=None, varkw=None) -> str:
     names = [p[0] for p in params]
-    sig = ", ".join([f"{n}: {h}" for n, h, _ in params] + [f"{n}={lit}" for n, lit in defaults])
+    omitted = {p[0] for p in params if len(p) > 3}
+    parts = []
+    for p in params:
+        n, h = p[0], p[1]
+        if n in omitted:
+            ns[f"DEF_{n}"] = p[2]
+            parts.append(f"{n}: {h} = DEF_{n}")
+        else:
+            parts.append(f"{n}: {h}")
+    # parameters without default first, then *args, then defaulted ones as keyword-only if *args is present
+    plain = [x for x in parts if " = DEF_" not in x]
+    dflt = [x for x in parts if " = DEF_" in x] + [f"{n}={lit}" for n, lit in defaults]
+    fwd = style == "fwd"
+    if fwd:
+        # forward references: annotations are strings naming objects that do not exist yet at decoration time
+        def late(x):
+            if ": " not in x:
+                return x
+            n, rest = x.split(": ", 1)
+            hint, eq, d = rest.partition(" = ")
+            return f"{n}: {_late_names(hint)!r}" + (f" = {d}" if eq else "")
+        plain, dflt = [late(x) for x in plain], [late(x) for x in dflt]
+    va = [f"*{varargs[0]}"] if varargs else []
+    vk = [f"**{varkw[0]}"] if varkw else []
+    sig = ", ".join(plain + va + dflt + vk) if varargs else ", ".join(plain + dflt + vk)
     rets = f" -> {ret_src}" if ret_src is not None else ""
+    if fwd and ret_src is not None:
+        rets = f" -> {_late_names(ret_src)!r}"
     body = "    EVENTS.append(('body', (" + "".join(n + ", " for n in names) + ")))\n"
     body += "    raise BodyError()\n" if body_raises else "    return RET\n"
     psrc = _provider_src(prov, sc, ns)
@@ -204,16 +245,25 @@ def _call_function(kind, style, prov, sc, params, ret_src, body_raises, ns, defa
         return "decor err SyntaxError"
     except Exception as e:  # noqa: BLE001
         return "decor pyexc " + type(e).__name__
+    if fwd:
+        for k in [k for k in ns if k.startswith("A") and k[1:].isdigit()]:
+            ns["LATE_" + k] = ns[k]
     F = ns["F"]
     identity = not hasattr(ns["RAW"], "__wrapped__")
-    vals = [p[2] for p in params]
-    if style == "kw":
-        args, kwargs = (), dict(zip(names, vals))
-    elif style == "mixed" and len(vals) > 1:
-        k = len(vals) // 2
-        args, kwargs = tuple(vals[:k]), dict(zip(names[k:], vals[k:]))
+    passed = [(p[0], p[2]) for p in params if p[0] not in omitted]
+    pn, pv = [n for n, _ in passed], [v for _, v in passed]
+    if varargs:
+        args, kwargs = tuple(pv) + tuple(varargs[1]), {}
+    elif style == "kw":
+        args, kwargs = (), dict(zip(pn, pv))
+    elif style == "mixed" and len(pv) > 1:
+        k = len(pv) // 2
+        args, kwargs = tuple(pv[:k]), dict(zip(pn[k:], pv[k:]))
     else:
-        args, kwargs = tuple(vals), {}
+        args, kwargs = tuple(pv), {}
+    if varkw:
+        kwargs = {**kwargs, **varkw[1]}
+    vals = [p[2] for p in params]
     del EVENTS[:]
     try:
         out = F(*args, **kwargs)
@@ -241,6 +291,7 @@ def _call_function(kind, style, prov, sc, params, ret_src, body_raises, ns, defa
 def _construct(kind, style, params, ns) -> str:
     names = [p[0] for p in params]
     vals = [p[2] for p in params]
+    params = [p[:3] for p in params]
     fields = "".join(f"    {n}: {h}\n" for n, h, _ in params) or "    pass\n"
     if kind == "nt":
         src = f"@dltype.dltyped_namedtuple()\nclass C(typing.NamedTuple):\n{fields}"
